@@ -121,7 +121,9 @@ func (k Kind) Signed() bool {
 var (
 	longStr = strings.Repeat("x", 299) + "é"
 	// StringAlphabet is ordered simplest first.
-	StringAlphabet = []string{"", "a", "ab", "b", "a\x00b", "é", "日本", "<>&", "\"\\", " ", " x y ", "\t\n", longStr, "😀", "null", "1"}
+	StringAlphabet = []string{"", "a", "ab", "b", "a\x00b", "é", "日本", "<>&", "\"\\", " ", " x y ", "\t\n", longStr, "😀", "null", "1",
+		// the TEXT backslash-u-0-0-3-e (not the character): breaks naive post-processing of escapes
+		"C:\\users\\u003e \\u0026 \\u003c"}
 
 	utc      = time.UTC
 	zPlus    = time.FixedZone("", 5*3600+30*60)
